@@ -451,6 +451,13 @@ class Stmts:
             cur = nxt
         return outs + [Out("normal", c) for c in cur]
 
+    def _inv(self, spec, n, entry, st, lv):
+        """The contract's invariant for loop #n; an invariant that names a local the code no longer has cannot be applied (UNDECIDED, not a crash)."""
+        try:
+            return spec.inv(n, entry, st, self.a_stack[-1], lv)
+        except KeyError as e:
+            raise Unsupported(f"the invariant of loop #{n} of {spec.qualname} refers to {e}, which the code no longer defines") from e
+
     def _loop(self, n, s, st, kind, itv=None):
         """Cut the loop at its invariant: init, havoc, assume, one arbitrary iteration, exit."""
         spec = self.cur_spec()
@@ -461,7 +468,7 @@ class Stmts:
             k0 = z3.IntVal(0)
             lv = {"k": k0, "n": length, "iter": itv, "elem": elem_of}
         entry = st.snapshot()
-        inv0 = spec.inv(n, entry, st, self.a_stack[-1], dict(lv, env=st.env))
+        inv0 = self._inv(spec, n, entry, st, dict(lv, env=st.env))
         if inv0 is None:
             raise Unsupported(f"loop #{n} of {spec.qualname} has no invariant in the contract file")
         for cl in inv0:
@@ -485,7 +492,7 @@ class Stmts:
             k = h.fresh_int(f"k{n}")
             h.assume(z3.And(k >= 0, k <= length))
             lv = {"k": k, "n": length, "iter": itv, "elem": elem_of}
-        for cl in spec.inv(n, entry, h, self.a_stack[-1], dict(lv, env=h.env)):
+        for cl in self._inv(spec, n, entry, h, dict(lv, env=h.env)):
             h.assume(cl.z)
         outs: list[Out] = []
         # --- one arbitrary iteration -------------------------------------------------
@@ -518,7 +525,7 @@ class Stmts:
                         lv2 = dict(lv)
                         if kind == "for":
                             lv2["k"] = k + 1
-                        for cl in spec.inv(n, entry, o.st, self.a_stack[-1], dict(lv2, env=o.st.env)):
+                        for cl in self._inv(spec, n, entry, o.st, dict(lv2, env=o.st.env)):
                             self.oblige(o.st, "inv-pres", f"{n}:{cl.name}", cl.z, cl.tag)
                         # path ends here (the invariant carries everything past the loop)
                     elif o.kind == "break":
